@@ -498,24 +498,20 @@ func (s *Snapshotter) compact() error {
 
 	// We now need to swap the old snapshot file with the new snapshot.
 	// Turns out, Windows won't let us rename the files if we have
-	// open handles to them or if the destination already exists. This
-	// means we are forced to close the existing handles, delete the
-	// old file, move the new one in place, and then re-open the file
-	// handles.
+	// open handles to them. This means we are forced to close the
+	// existing handles, move the new one in place, and then re-open
+	// the file handles. The old file is never deleted first: os.Rename
+	// replaces it atomically, so a crash at any point leaves either the
+	// old or the new snapshot in place, never none.
 
 	// Flush the existing snapshot, ignoring errors since we will
-	// delete it momentarily.
+	// replace it momentarily.
 	_ = s.buffered.Flush()
 	s.buffered = nil
 
 	// Close the file handle to the old snapshot
 	s.fh.Close()
 	s.fh = nil
-
-	// Delete the old file
-	if err := os.Remove(s.path); err != nil {
-		return fmt.Errorf("failed to remove old snapshot: %v", err)
-	}
 
 	// Move the new file into place
 	if err := os.Rename(newPath, s.path); err != nil {
